@@ -14,10 +14,18 @@ SHARD = 40
 RULE = ('(a) generated signals (11 kinds, 8 sampling rates) x first_extrema in {peak, trough, None, invalid} x boundary x '
         'filter_kwargs (n_cycles / n_seconds / default) x pad; sign bits of the reference band-pass computed by the harness '
         'with neurodsp; (b) with the filter stubbed to a prescribed array: every sign pattern up to length 8 (quick) / 10 '
-        '(thorough) x raw signals over {0,1,2} with ties. non-trivial = at least 2 peaks and 2 troughs reported')
+        '(thorough) x raw signals over {0,1,2} with ties x boundary in {0,1,2,3}; (c) the same stub with pad=True (pad width '
+        '1-3 from a one- or three-tap filter length, raw signals over {0,1,2} or {-1,0,1}, so that extrema tie with the padding '
+        'zeros) x boundary in {0,1,2}; (d) stubbed random sign patterns of length 9-16 with short runs x boundary in {0..3}, '
+        'padded and un-padded. non-trivial = at least 2 peaks and 2 troughs reported')
 EXHAUSTIVE = {'quick': False, 'thorough': False}
 ASSUMPTIONS = ['signals are finite (no NaN/inf)', 'reference filter output has no NaN',
-               'inputs with no rising or no decaying crossing (fewer than one oscillation) are outside the property and skipped']
+               'inputs with no rising or no decaying crossing (fewer than one oscillation) are outside the property and skipped',
+               'statement oracle: when no peak/trough pair survives the first_extrema trimming the property only forbids '
+               'RETURNING extrema (any exception, or two empty arrays, is accepted); an invalid first_extrema value is outside '
+               'the quantifier and not judged; the exception CLASS is compared with the model only',
+               'pad=True pads ceil(filter_length/2) zeros on each side (neurodsp compute_filter_length); a stub case whose '
+               'filter is called with another length is skipped and counted (kind stub*/skip)']
 FIRSTS = {'peak': 'FPeak', 'trough': 'FTrough', None: 'FNone', 'bogus': 'FInvalid'}
 
 
@@ -51,12 +59,59 @@ def cases(rng, tier):
     for ln in range(2, L + 1):
         for bits in itertools.product([0, 1], repeat=ln):
             for _ in range(per if ln > 4 else 2):
-                raw = [float(rng.choice([0, 1, 2])) for _ in range(ln)]
-                filt = [(1.0 if b else rng.choice([-1.0, -1.0, 0.0])) for b in bits]
-                out.append({'kind': 'stub', 'sig': gen.hexlist(raw), 'filt': filt, 'fs': 100, 'f_range': [8, 12],
-                            'boundary': rng.choice([0, 0, 0, 1]), 'first': rng.choice(['peak', 'trough', None]),
-                            'filter_kwargs': None, 'pad': False, 'negate': False})
+                out.append(_stub_case(rng, bits, None, [0, 0, 0, 1, 2, 3]))
+    # the same with pad=True: the stubbed filter output covers the zero-padded signal
+    cfgs = _pad_cfgs()
+    for ln in range(4, L + 1):
+        for bits in itertools.product([0, 1], repeat=ln):
+            for _ in range(2 if ln > 5 else 1):
+                ok = [g for g in cfgs if ln - 2 * g[3] >= 2]
+                if ok:
+                    out.append(_stub_case(rng, bits, rng.choice(ok), [0, 0, 1, 2]))
+    # longer random sign patterns with short runs: several extrema left after boundary 2 / 3
+    for _ in range(300 if tier == 'quick' else 3000):
+        ln = rng.randint(9, 16)
+        bits, b = [], rng.random() < 0.5
+        while len(bits) < ln:
+            bits.extend([b] * rng.choice([1, 1, 2, 2, 3]))
+            b = not b
+        bits = bits[:ln]
+        ok = [g for g in cfgs if ln - 2 * g[3] >= 4]
+        out.append(_stub_case(rng, bits, rng.choice(ok) if ok and rng.random() < 0.5 else None, [0, 1, 2, 3]))
     return out
+
+
+def _pad_cfgs():
+    """(fs, f_range, filter_kwargs, pad width) with a pad width of 1..3 samples (filter lengths 1, 3, 5)."""
+    out = []
+    for fs, f_range, fk in [(100, [8, 12], {'n_seconds': 0.01}), (100, [40, 45], {'n_cycles': 1}),
+                            (100, [8, 12], {'n_seconds': 0.03}), (50, [20, 24], {'n_cycles': 2}),
+                            (64, [16, 30], {'n_seconds': 0.03125})]:
+        try:
+            k = ref.pad_len(fs, f_range, fk)
+        except Exception:
+            continue
+        if 1 <= k <= 3:
+            out.append((fs, f_range, fk, k))
+    return out
+
+
+def _stub_case(rng, bits, cfg, boundaries):
+    """Filter stubbed to a prescribed array with the sign pattern `bits` (non-positive entries are -1 or exactly 0);
+    cfg = None: pad=False; else pad=True with the pad width of cfg."""
+    ln = len(bits)
+    filt = [(1.0 if b else rng.choice([-1.0, -1.0, 0.0])) for b in bits]
+    if cfg is None:
+        raw = [float(rng.choice([0, 1, 2])) for _ in range(ln)]
+        return {'kind': 'stub', 'sig': gen.hexlist(raw), 'filt': filt, 'fs': 100, 'f_range': [8, 12],
+                'boundary': rng.choice(boundaries), 'first': rng.choice(['peak', 'trough', None]),
+                'filter_kwargs': None, 'pad': False, 'negate': False}
+    fs, f_range, fk, k = cfg
+    alpha = rng.choice([[0, 1, 2], [-1, 0, 1]])
+    raw = [float(rng.choice(alpha)) for _ in range(ln - 2 * k)]
+    return {'kind': 'stubpad', 'sig': gen.hexlist(raw), 'filt': filt, 'fs': fs, 'f_range': list(f_range), 'padn': k,
+            'boundary': rng.choice(boundaries), 'first': rng.choice(['peak', 'trough', None]),
+            'filter_kwargs': dict(fk), 'pad': True, 'negate': False}
 
 
 def run_impl(c):
@@ -67,12 +122,17 @@ def run_impl(c):
     r = {}
     orig = getattr(ex, 'filter_signal', None)
     try:
-        if c['kind'] == 'stub':
+        if c['kind'].startswith('stub'):
             if orig is None:
                 return {'skip': 'no filter_signal name to stub'}
             filt = np.array(c['filt'], dtype=float)
-            ex.filter_signal = lambda s, *a, **k: filt.copy()
-            pos, padn = [bool(x > 0) for x in filt], 0
+            seen = []
+
+            def stub(s, *a, **k):
+                seen.append(len(s))
+                return filt.copy()
+            ex.filter_signal = stub
+            pos, padn = [bool(x > 0) for x in filt], c.get('padn', 0)
         else:
             try:
                 pos, padn, nz = ref.ref_filter_pos(sig, c['fs'], tuple(c['f_range']), c['filter_kwargs'], c['pad'])
@@ -89,6 +149,9 @@ def run_impl(c):
             r['troughs'] = [int(x) for x in t]
         except Exception as e:
             r['err'] = exc_kind(e)
+        if c['kind'].startswith('stub') and seen != [len(filt)]:
+            # the implementation filtered something else than the (padded) signal the stub stands for
+            return {'skip': 'stubbed filter called with lengths %s, prescribed output has %d' % (seen, len(filt))}
     finally:
         if orig is not None:
             ex.filter_signal = orig
@@ -138,8 +201,15 @@ def oracle(c, o):
     want = spec_extrema(pos, sigp, padn, len(sig), c['boundary'], c['first'])
     if want == 'degenerate':
         return None
-    if isinstance(want, str):
-        return None if o.get('err') == want else 'expected %sError, got %s' % (want, {k: o[k] for k in o if k != 'ref'})
+    if want == 'Value':
+        return None   # invalid first_extrema: outside the quantifier (the model comparison pins the ValueError)
+    if want == 'Index':
+        # no peak/trough pair survives the trimming: the property forbids REPORTING extrema here (a sequence that starts
+        # with the requested kind and has equally many of each would need an extremum that is not there); how the
+        # implementation declines (which exception, or two empty arrays) is not stated -> model comparison only
+        if 'err' in o or (not o['peaks'] and not o['troughs']):
+            return None
+        return 'extrema reported although no peak/trough pair survives: got peaks %s troughs %s' % (o['peaks'], o['troughs'])
     if 'err' in o:
         return 'raised %s where extrema %s were expected' % (o['err'], want)
     if (o['peaks'], o['troughs']) != (list(want[0]), list(want[1])):
@@ -174,8 +244,9 @@ def coq_case(c, o):
 
 
 def shrink(c):
-    if c['kind'] != 'stub':
+    if not c['kind'].startswith('stub'):
         return
     n = len(c['sig'])
+    k = c.get('padn', 0)
     for i in range(n):
-        yield dict(c, sig=c['sig'][:i] + c['sig'][i + 1:], filt=c['filt'][:i] + c['filt'][i + 1:])
+        yield dict(c, sig=c['sig'][:i] + c['sig'][i + 1:], filt=c['filt'][:i + k] + c['filt'][i + k + 1:])
